@@ -14,7 +14,7 @@ import numpy as np
 from harness.common import enc, Z, B, opt, to_zs, is_err, err_code, kids, tag
 
 PROP = 'C04'
-GENERATORS = ['gen_array']
+GENERATORS = ['gen_array', 'gen_viewprog']
 TRUSTED = [
     'translator tools/py2gallina.py: Gen_array.combine_slices (used by the SliceSubsetState model) is regenerated from glue/utils/array.py on every run',
     'hand model coq/C04/Model.v of SliceSubsetState.to_mask, the RoiSubsetStateNd pixel-space shortcut, CoordinateComponent._calculate (world) and '
@@ -24,6 +24,12 @@ TRUSTED = [
     'model; in the correspondence they are tabulated by calling them directly on the pixel grid; dependent_axes is an input (C15 decides whether it is right)',
     'stored / categorical / derived / linked / pixel attributes: comp[view] is Numpy indexing of the full array or a link evaluated on viewed inputs: oracle only',
     'Common.PyInt.slice_indices models CPython slice.indices (tied by the C20 exhaustive stream)',
+    'translator tools/gen/gen_viewprog.py: ParsedSubsetState.to_mask, ParsedComponentLink.compute and categorical_ndarray.__array_finalize__ are regenerated from '
+    'glue/core/parse.py and glue/utils/array.py on every run into two small program languages (fail-closed); the interpreters in coq/C04/Model.v are hand-written',
+    'hand model of the expression language of ParsedCommand (aexpr / bexpr: {x}, constants, arange, size, sum, max, min, cumsum, roll, + - *, comparisons, & | ~) '
+    'and of unique() / index_lookup() for categorical columns (cat_unique / index_lookup): tied to numpy / pandas by correspondence only; the harness renders each '
+    'expression tree into the Python expression string',
+    'natural expressions with floating-point reductions (np.mean, np.percentile, np.median, np.std, np.argsort, np.flip) are checked by the oracle only',
 ]
 ASSUMPTIONS = [
     'view domain: None, Ellipsis, tuples (possibly empty or shorter than ndim) of integers (negative allowed, in range) and positive-step slices, tuples of '
@@ -31,6 +37,9 @@ ASSUMPTIONS = [
     'model domain: basic views (integers and slices); index-array and boolean-mask views are checked by the oracle only',
     'IndexedData views: the same domain over the reduced shape; indices are any valid numpy integer (negative = from the end); statistics/histograms of an '
     'IndexedData are compared with the textbook statistic of the parent slice',
+    'whole-array theorems: a view of any kind is the list of flat positions it selects (in_range: inside the array); for basic views the model computes the positions '
+    '(sel_of / to_under / flat_index), for index arrays and boolean masks they are numpy\'s own indexing of arange(size)',
+    'evaluation order: "fresh" means a newly built dataset / state / IndexedData on which nothing has been evaluated; the twin is rebuilt from the same sub-seed',
     'ROI selections on the pixel coordinates of another dataset linked by LinkSame (axes permuted, more dimensions than ROI attributes) are also compared with '
     'the mask computed from first principles, since there the view and the full mask could be wrong together',
 ]
@@ -819,6 +828,648 @@ def stream_indexed(R):
                    'view; sum statistic for every axis argument with and without selection, also under views whose slices start at the end of every kept axis; histograms' % (shapes,))
 
 
+# ------------------------------------------------------------------ stream: evaluation order (view FIRST on a fresh twin)
+class Twin:
+    pass
+
+
+def cat_labels(shape, seed, alphabet='abcde'):
+    import random
+    rng = random.Random('cat|%r|%d|%s' % (tuple(shape), seed, alphabet))
+    n = int(np.prod(shape))
+    return np.array([rng.choice(alphabet) for _ in range(n)]).reshape(shape)
+
+
+def cat_reference(labels):
+    """categories and codes from first principles (sorted distinct labels; position of each label in them)"""
+    cats, inv = np.unique(np.asarray(labels).ravel(), return_inverse=True)
+    return cats, inv.reshape(np.shape(labels)).astype(float)
+
+
+def build_twin(builder, shape, ck, seed):
+    """a freshly built dataset on which NOTHING has been evaluated yet; the same arguments give an identical twin.
+    builder 'light': stored + two categorical columns only; 'full': make_dataset plus the 5-category column"""
+    import random
+    G.load()
+    S, ROI = G.S, G.ROI
+    from glue.core.parse import ParsedCommand, ParsedSubsetState
+    t = Twin()
+    c5 = cat_labels(shape, seed)
+    if builder == 'light':
+        d, d2, dc, rng = _make_light(shape, seed)
+        t.atts = {'stored': (d, d.id['x']), 'categorical': (d, d.id['c'])}
+    else:
+        d, d2, dc, rng = make_dataset(shape, ck, seed)
+        t.atts = dict((n, (o, c)) for n, o, c in attributes(d, d2))
+    d.add_component(c5, 'c5')
+    t.d, t.d2, t.dc = d, d2, dc
+    t.atts['categorical5'] = (d, d.id['c5'])
+    c, k5 = d.id['c'], d.id['c5']
+    sels = {
+        'catstate': S.CategorySubsetState(c, [1]), 'catstate5': S.CategorySubsetState(k5, [1, 3]), 'catstate5_hi': S.CategorySubsetState(k5, [4, 2]),
+        'catroi5': S.CategoricalROISubsetState(att=k5, roi=ROI.CategoricalROI(['b', 'd'])),
+        'parsed_codes5': ParsedSubsetState(ParsedCommand('{k}.codes >= 2', {'k': k5})),
+        'and_cat': S.CategorySubsetState(k5, [0, 1, 2]) & (d.id['x'] > 0),
+        'not_cat': ~S.CategorySubsetState(k5, [3]),
+    }
+    if len(shape) == 1:
+        # the two table-only (1-d) categorical selection kinds
+        sels['cat2d'] = S.CategoricalROISubsetState2D({'a': ['a', 'b'], 'c': ['e', 'd', 'c'], 'b': ['b']}, c, k5)
+        sels['catmr'] = S.CategoricalMultiRangeSubsetState({'a': [(-1, 1)], 'c': [(0, 3), (3.5, 5)], 'e': [(-2, 0.5)]}, k5, d.id['x'])
+    if builder == 'full':
+        sels.update(dict(selections(d, random.Random('twin-sel|%r|%d' % (tuple(shape), seed)))))
+        for name, st, ref, ax, roi in linked_pixel_rois(d, dc):
+            sels[name] = st
+    t.sels = sels
+    return t
+
+
+def _make_light(shape, seed):
+    import random
+    G.load()
+    rng = random.Random('%r|light|%d' % (tuple(shape), seed))
+    n = int(np.prod(shape))
+    x = np.array([rng.randrange(-4, 9) / 2 for _ in range(n)]).reshape(shape)
+    c = np.array([rng.choice('abc') for _ in range(n)]).reshape(shape)
+    d = G.Data(x=x, c=c, label='d')
+    return d, None, None, rng
+
+
+CAT_ATTS = ('categorical', 'categorical5')
+CAT_SELS = ('catstate', 'catstate5', 'catstate5_hi', 'catroi5', 'parsed_codes5', 'and_cat', 'not_cat', 'cat2d', 'catmr')
+STAT_TEXTBOOK = {'maximum': np.max, 'sum': np.sum, 'minimum': np.min}
+
+
+def att_parts(val):
+    """what is compared for an attribute result: the values (labels), and for a categorical array its codes and categories
+    (a property that raises is recorded as ('err', type, message))"""
+    out = {'values': np.asarray(val)}
+    if isinstance(val, np.ndarray) and type(val).__name__ == 'categorical_ndarray':
+        for part in ('codes', 'categories'):
+            r = call(lambda: np.asarray(getattr(val, part)))
+            out[part] = r[1] if r[0] == 'ok' else r
+    return out
+
+
+def part_err(p):
+    return isinstance(p, tuple) and len(p) == 3 and p[0] == 'err'
+
+
+def order_case(t, kind, name, ep, v):
+    """the two thunks of one case on the twin t: (the viewed request, the full-size request)"""
+    if kind == 'att':
+        owner, cid = t.atts[name]
+        if ep == 'getitem':
+            return (lambda: owner[cid, v]), (lambda: owner[cid])
+        return (lambda: owner.get_data(cid, view=v)), (lambda: owner.get_data(cid))
+    if kind == 'stat':            # statistic of the codes of a categorical attribute restricted to the view
+        owner, cid = t.atts[name]
+        return (lambda: owner.compute_statistic(ep, cid, view=v)), (lambda: owner.get_data(cid))
+    st = t.sels[name]
+    if ep == 'subset':
+        sub = t.d.new_subset()
+        sub.subset_state = st
+        return (lambda: sub.to_mask(v)), (lambda: sub.to_mask())
+    if ep == 'stat_sel':          # sum of x over the selection restricted to the view
+        return (lambda: t.d.compute_statistic('sum', t.d.id['x'], subset_state=st, view=v)), (lambda: t.d.get_mask(st))
+    return (lambda: t.d.get_mask(st, view=v)), (lambda: t.d.get_mask(st))
+
+
+def order_compare(kind, ep, v, got, full, ref, x=None):
+    """the property on one twin: got (requested FIRST) against the view of full (requested afterwards on the same objects) and
+    against the view of ref (full-size result of the identical twin that was evaluated full-first). Returns None or a description"""
+    if got[0] == 'err':
+        return {'raises': got[1], 'message': got[2], 'when': 'viewed request'}
+    if full[0] == 'err':
+        return {'raises': full[1], 'message': full[2], 'when': 'full-size request'}
+    if kind == 'att':
+        pf, pr = att_parts(full[1]), att_parts(ref)
+        for part in pr:
+            if part not in pf:
+                return {'difference': 'full-size result after a view lacks %s' % part}
+            if part_err(pr[part]):
+                continue        # the full-first failure belongs to the cross stream
+            if part_err(pf[part]):
+                return {'raises': pf[part][1], 'message': pf[part][2], 'when': '%s of the full-size result' % part}
+            diff = same(pf[part], pr[part])
+            if diff:
+                return {'difference': 'full-size %s depend on the evaluation order: %s' % (part, diff), 'after_view': pf[part].tolist(), 'full_first': pr[part].tolist()}
+        exp = ref if v is None else ref[v]
+        pg, pe = att_parts(got[1]), att_parts(exp)
+        if 'codes' in pr and np.ndim(pe['values']) > 0 and not part_err(pr['codes']):
+            # expected codes / categories from the full-size result, not from numpy's view of the categorical array
+            pe['codes'] = pr['codes'] if v is None else pr['codes'][v]
+            pe['categories'] = pr['categories']
+        for part in pe:
+            if part not in pg:
+                return {'difference': 'viewed result has no %s' % part}
+            if part_err(pg[part]):
+                return {'raises': pg[part][1], 'message': pg[part][2], 'when': '%s of the viewed result' % part}
+            if part_err(pe[part]):
+                continue
+            diff = same(pg[part], pe[part])
+            if diff:
+                return {'difference': '%s of the view requested first: %s' % (part, diff), 'result': pg[part].tolist(), 'expected': pe[part].tolist()}
+        return None
+    if kind == 'stat':
+        codes = att_parts(ref)['codes']
+        if part_err(codes):
+            return None
+        sub = codes if v is None else codes[v]
+        exp = STAT_TEXTBOOK[ep](sub)
+        return None if same(got[1], exp) is None else {'difference': 'statistic of the viewed codes', 'result': np.asarray(got[1]).tolist(), 'expected': float(exp)}
+    fm, rm = np.asarray(full[1]), np.asarray(ref)
+    diff = same(fm, rm)
+    if diff:
+        return {'difference': 'full-size mask depends on the evaluation order: %s' % diff, 'after_view': fm.tolist(), 'full_first': rm.tolist()}
+    if ep == 'stat_sel':
+        xs, ms = (x, rm) if v is None else (x[v], rm[v])
+        exp = textbook_sum(xs, ms, None)
+        return None if same(got[1], exp) is None else {'difference': 'sum over the selection in the view', 'result': np.asarray(got[1]).tolist(), 'expected': np.asarray(exp).tolist()}
+    exp = rm if v is None else rm[v]
+    diff = same(got[1], exp)
+    return None if not diff else {'difference': 'mask of the view requested first: %s' % diff, 'result': np.asarray(got[1]).tolist(), 'expected': np.asarray(exp).tolist()}
+
+
+def order_plan(shape, builder, ck, seed, per_name=3):
+    """(kind, name, entry point, view description) for one twin family; deterministic"""
+    import random
+    rng = random.Random('order|%r|%s|%s|%d' % (tuple(shape), builder, ck, seed))
+    views = all_views(shape, rng, ALPHABET if len(shape) < 3 else ALPHABET[:4])
+    ref = build_twin(builder, shape, ck, seed)
+    plan = []
+    if builder == 'light':
+        for name in CAT_ATTS:
+            for k, vd in enumerate(views):
+                plan.append(('att', name, 'get_data' if k % 2 == 0 else 'getitem', vd))
+            for vd in views:
+                if view_kind(vd) in ('tuple%d' % len(shape), 'bare_slice', 'idx', 'bool', 'none'):
+                    plan.append(('stat', name, ['maximum', 'sum', 'minimum'][len(plan) % 3], vd))
+        for name in CAT_SELS:
+            if name not in ref.sels:
+                continue
+            for k, vd in enumerate(views):
+                plan.append(('mask', name, 'get_mask' if k % 3 else 'subset', vd))
+            for vd in views:
+                if isinstance(vd, list) and vd[0] == 'tuple' and not any(isinstance(e, int) for e in vd[1]):
+                    plan.append(('mask', name, 'stat_sel', vd))
+    else:
+        # three views per attribute / selection kind, rotating through the whole view list so that every view kind is used by some of them
+        proper = [v for v in views if v not in ('none', 'ellipsis', ['tuple', []])]
+        k = 0
+        for kind, names in (('att', sorted(ref.atts)), ('mask', sorted(ref.sels))):
+            for name in names:
+                if name in CAT_ATTS or name in CAT_SELS:
+                    continue
+                for _ in range(per_name):
+                    plan.append((kind, name, 'get_data' if kind == 'att' else 'get_mask', proper[(7 * k) % len(proper)]))
+                    k += 1
+    return ref, plan
+
+
+def run_order_case(builder, shape, ck, seed, kind, name, ep, vd, ref_full, order='view-first'):
+    v = view_obj(vd)
+    t = build_twin(builder, shape, ck, seed)         # fresh objects: nothing has been asked of them yet
+    f_view, f_full = order_case(t, kind, name, ep, v)
+    if order == 'view-first':
+        got = call(f_view)                            # the view FIRST
+        full = call(f_full)                           # the full-size result only afterwards
+    else:
+        full = call(f_full)
+        if kind in ('att', 'stat') and full[0] == 'ok':
+            att_parts(full[1])                        # full-first means: the codes / categories of the full column have been looked up
+        got = call(f_view)
+    x = np.asarray(t.d[t.d.id['x']]) if ep == 'stat_sel' else None
+    return order_compare(kind, ep, v, got, full, ref_full, x), got, full
+
+
+def order_reference(ref, kind, name, ep):
+    """full-first on the reference twin"""
+    if kind in ('att', 'stat'):
+        owner, cid = ref.atts[name]
+        return call(lambda: owner.get_data(cid))
+    return call(lambda: ref.d.get_mask(ref.sels[name]))
+
+
+CODE_BASED = CAT_ATTS + ('catstate', 'catstate5', 'catstate5_hi', 'parsed_codes5', 'and_cat', 'not_cat')
+
+
+def order_finding_key(case, bad, exp_ndim):
+    """known finding 'categorical-nd-view-codes': ONLY the codes of a view of a categorical attribute whose result has two or more
+    dimensions, failing with pandas' "Per-column arrays must each be 1-dimensional" (index_lookup handles 1-d arrays only)"""
+    if case['name'] in CODE_BASED and exp_ndim >= 2 and bad.get('raises') == 'ValueError' and '1-dimensional' in str(bad.get('message')):
+        return 'categorical-nd-view-codes'
+    # known finding 'category-state-scalar-view': ONLY a CategorySubsetState (alone or inside a composite) under a view that selects a
+    # single element (the label read through the view is a plain string, which is then compared with the integer codes)
+    if case['kind'] == 'mask' and case['name'] in ('catstate', 'catstate5', 'catstate5_hi', 'and_cat', 'not_cat') and exp_ndim == 0 \
+            and case['ep'] in ('get_mask', 'subset') and 'mask of the view' in str(bad.get('difference')):
+        return 'category-state-scalar-view'
+    # known finding 'categorical-table-states-scalar-view': ONLY CategoricalROISubsetState2D / CategoricalMultiRangeSubsetState under a view that
+    # selects a single element (they loop over range(len(labels)))
+    if case['kind'] == 'mask' and case['name'] in ('cat2d', 'catmr') and exp_ndim == 0 and bad.get('raises') in ('IndexError', 'TypeError') and case['ep'] in ('get_mask', 'subset'):
+        return 'categorical-table-states-scalar-view'
+    return finding_key(dict(case, stream='cross'))
+
+
+def stream_order(R):
+    G.load()
+    shapes = R.pick([(5,), (3, 4), (2, 3, 4)], [(5,), (7,), (3, 4), (4, 3), (2, 3, 4), (3, 2, 2)])
+    ncases = 0
+    pending = []
+    for shape in shapes:
+        for builder, ck in (('light', 'none'), ('full', 'none'), ('full', 'affine_dep')):
+            seed = R.seed + 2
+            if builder == 'full' and len(shape) > R.pick(2, 3):
+                continue
+            ref, plan = order_plan(shape, builder, ck, seed, R.pick(3, 6))
+            refs = {}
+            nplan = 0
+            for kind, name, ep, vd in plan:
+                if builder == 'full' and ck != 'none' and not (name.startswith('world') or name in ('ineq_world', 'roi_pix_world')):
+                    continue        # only the world attributes / selections depend on the coordinates
+                if builder == 'full' and ck == 'none' and name.startswith('world'):
+                    continue
+                rk = (kind in ('att', 'stat'), name)
+                if rk not in refs:
+                    refs[rk] = order_reference(ref, kind, name, ep)
+                rf = refs[rk]
+                if rf[0] == 'err':
+                    continue        # the full-first failure is reported by the cross stream
+                v = view_obj(vd)
+                base_full = np.asarray(rf[1])
+                exp = expected_view(base_full, v)
+                if exp[0] == 'err':
+                    continue        # numpy rejects the view: outside the domain
+                if kind == 'stat' and (np.ndim(exp[1]) == 0 or np.size(exp[1]) == 0):
+                    continue        # a single label / nothing: no statistic
+                if ep == 'stat_sel' and not np.asarray(exp[1]).any():
+                    continue
+                nplan += 1
+                for order in (('view-first', 'full-first') if builder == 'light' and (len(shape) < 3 or nplan % 3 == 0) else ('view-first',)):
+                    case = {'stream': 'order', 'builder': builder, 'shape': list(shape), 'coords': ck, 'seed': seed, 'kind': kind, 'name': name, 'ep': ep,
+                            'view': vd, 'order': order}
+                    ncases += 1
+                    bad, got, full = run_order_case(builder, shape, ck, seed, kind, name, ep, vd, rf[1], order)
+                    trivial = vd in ('none', 'ellipsis') or np.asarray(exp[1]).size == 0
+                    R.count(('order', builder, tuple(shape), ck, kind, name, ep, repr(vd), order), nontrivial=not trivial, stream='order', what='order:%s:%s' % (kind, ep),
+                            view=view_kind(vd), ndim=len(shape), order=order)
+                    if bad:
+                        R.fail('oracle', case, bad, key=order_finding_key(case, bad, np.ndim(exp[1])))
+                    if kind == 'att' and name in CAT_ATTS and got[0] == 'ok' and full[0] == 'ok':
+                        # correspondence: the implementation under BOTH orders against the one answer of the model (which has no hidden state)
+                        labels = [ord(ch) for ch in np.asarray(rf[1]).ravel().tolist()]
+                        # warm = the categories of the column were looked up before the view was taken (the translated __array_finalize__ sees them or not)
+                        warm = int(order == 'full-first')
+                        pending.append((case, 'view', att_parts(got[1]), enc((5, [Z(shape), Z(labels), view_enc(vd) if is_basic(vd) else view_wire(shape, vd, v), warm]))))
+                        if nplan % 7 == 0:
+                            pending.append((case, 'full', att_parts(full[1]), enc((5, [Z(shape), Z(labels), (2, []), warm]))))
+    outs = R.model([p_[3] for p_ in pending])
+    for (case, which, parts, _), o in zip(pending, outs):
+        if is_err(o):
+            R.fail('correspondence', case, {'model': 'error %s' % err_code(o), 'impl': 'ok', 'which': which})
+            continue
+        if 'codes' not in parts:
+            continue                    # a single label (all-integer view): no codes
+        if part_err(parts['codes']) or part_err(parts['categories']):
+            continue                    # known finding categorical-nd-view-codes (reported by the oracle)
+        sh = to_zs(kids(o)[0])
+        mcodes = np.array(to_zs(kids(o)[1]), dtype=float).reshape(sh)
+        mcats = [chr(c) for c in to_zs(kids(o)[2])]
+        icodes, icats = np.asarray(parts['codes']), [str(c) for c in np.asarray(parts['categories']).tolist()]
+        if icodes.shape != tuple(sh) or not np.array_equal(icodes, mcodes) or icats != mcats:
+            R.fail('correspondence', case, {'which': which, 'model_codes': mcodes.ravel().tolist(), 'impl_codes': icodes.ravel().tolist(), 'model_categories': mcats,
+                                            'impl_categories': icats})
+    R.sample({'stream': 'order', 'builder': 'light', 'shape': [5], 'coords': 'none', 'seed': R.seed + 2, 'kind': 'att', 'name': 'categorical5', 'ep': 'get_data',
+              'view': ['tuple', [[1, None, None]]], 'order': 'view-first on a fresh twin'})
+    R.stream('order', cases=ncases, model_cases=len(pending), exhaustive=True,
+             bound='shapes %s; every case on a FRESH twin (same sub-seed, identical dataset), the view requested first and the full-size result afterwards, compared with '
+                   'each other and with the full-first result of the reference twin. light twin: 2 categorical attributes (3 and 5 categories; labels, codes, categories) '
+                   'through get_data / data[cid, view] / compute_statistic(view=), 7 category-based selections (+ the two table-only ones, CategoricalROISubsetState2D and CategoricalMultiRangeSubsetState, on 1-d data) through get_mask / Subset.to_mask / '
+                   'compute_statistic(subset_state=, view=), under every view of the domain; full twin: every other attribute and selection kind under ~20 views each' % (shapes,))
+
+
+# ------------------------------------------------------------------ stream: whole-array leaves (ParsedSubsetState / ParsedComponentLink)
+A_TAG = {'x': 0, 'const': 1, 'arange': 2, 'size': 3, 'sum': 4, 'max': 5, 'cumsum': 6, 'roll': 7, 'add': 8, 'sub': 9, 'mul': 10, 'min': 12}
+B_TAG = {'gt': 0, 'ge': 1, 'eq': 2, 'and': 3, 'or': 4, 'not': 5}
+A_OP = {'add': '+', 'sub': '-', 'mul': '*'}
+B_OP = {'gt': '>', 'ge': '>=', 'eq': '==', 'and': '&', 'or': '|'}
+
+
+def a_is_array(e):
+    k = e[0]
+    if k in ('x', 'arange', 'cumsum', 'roll'):
+        return True
+    if k in A_OP:
+        return a_is_array(e[1]) or a_is_array(e[2])
+    return False
+
+
+def a_elementwise(e):
+    k = e[0]
+    if k in ('x', 'const'):
+        return True
+    if k in A_OP:
+        return a_elementwise(e[1]) and a_elementwise(e[2])
+    return False
+
+
+def b_elementwise(e):
+    if e[0] in ('gt', 'ge', 'eq'):
+        return a_elementwise(e[1]) and a_elementwise(e[2])
+    return all(b_elementwise(k) for k in e[1:])
+
+
+def a_render(e):
+    k = e[0]
+    if k == 'x':
+        return '{x}'
+    if k == 'const':
+        return '(%d)' % e[1]
+    if k == 'arange':
+        return 'np.arange(np.size({x})).reshape(np.shape({x}))'
+    if k == 'size':
+        return 'np.size({x})'
+    if k in ('sum', 'max', 'min'):
+        return 'np.%s(%s)' % (k, a_render(e[1]))
+    if k == 'cumsum':
+        r = a_render(e[1])
+        return 'np.cumsum(%s).reshape(np.shape(%s))' % (r, r)
+    if k == 'roll':
+        return 'np.roll(%s, %d)' % (a_render(e[2]), e[1])
+    return '(%s %s %s)' % (a_render(e[1]), A_OP[k], a_render(e[2]))
+
+
+def b_render(e):
+    k = e[0]
+    if k in ('gt', 'ge', 'eq'):
+        return '(%s %s %s)' % (a_render(e[1]), B_OP[k], a_render(e[2]))
+    if k == 'not':
+        return '(~%s)' % b_render(e[1])
+    return '(%s %s %s)' % (b_render(e[1]), B_OP[k], b_render(e[2]))
+
+
+def a_enc(e):
+    k = e[0]
+    if k == 'const':
+        return (1, [int(e[1])])
+    if k == 'roll':
+        return (7, [int(e[1]), a_enc(e[2])])
+    return (A_TAG[k], [a_enc(c) for c in e[1:]])
+
+
+def b_enc(e):
+    k = e[0]
+    if k in ('gt', 'ge', 'eq'):
+        return (B_TAG[k], [a_enc(e[1]), a_enc(e[2])])
+    return (B_TAG[k], [b_enc(c) for c in e[1:]])
+
+
+def gen_aexpr(rng, depth, need_array=False, whole=None):
+    """whole=True: must contain a whole-array construct at the top; need_array: the value must be an array (not a broadcast scalar)"""
+    for _ in range(200):
+        if depth <= 0:
+            e = rng.choice([('x',), ('x',), ('const', rng.randrange(-3, 9)), ('arange',), ('size',)])
+        else:
+            k = rng.choice(['x', 'const', 'arange', 'size', 'sum', 'max', 'min', 'cumsum', 'roll', 'add', 'sub', 'mul', 'add', 'sub'])
+            if k in ('x', 'arange', 'size'):
+                e = (k,)
+            elif k == 'const':
+                e = ('const', rng.randrange(-3, 9))
+            elif k in ('sum', 'max', 'min', 'cumsum'):
+                e = (k, gen_aexpr(rng, depth - 1, need_array=True))
+            elif k == 'roll':
+                e = ('roll', rng.choice([1, -1, 2, 3, -2]), gen_aexpr(rng, depth - 1, need_array=True))
+            else:
+                e = (k, gen_aexpr(rng, depth - 1), gen_aexpr(rng, depth - 1))
+        if need_array and not a_is_array(e):
+            continue
+        if whole is not None and a_elementwise(e) == whole:
+            continue
+        return e
+    return ('x',)
+
+
+def gen_bexpr(rng, depth, whole=None):
+    for _ in range(200):
+        k = rng.choice(['gt', 'gt', 'ge', 'eq', 'and', 'or', 'not']) if depth > 0 else rng.choice(['gt', 'ge', 'eq'])
+        if k in ('gt', 'ge', 'eq'):
+            a = gen_aexpr(rng, 2, need_array=rng.random() < .7)
+            b = gen_aexpr(rng, 2, need_array=not a_is_array(a))
+            e = (k, a, b)
+        elif k == 'not':
+            e = ('not', gen_bexpr(rng, depth - 1))
+        else:
+            e = (k, gen_bexpr(rng, depth - 1), gen_bexpr(rng, depth - 1))
+        if whole is not None and b_elementwise(e) == whole:
+            continue
+        return e
+    return ('gt', ('x',), ('sum', ('x',)))
+
+
+# natural expressions (oracle only): (expression, element-wise?)
+NATURAL_MASKS = [
+    ('{x} > np.mean({x})', False), ('{x} >= np.percentile({x}, 75)', False), ('{x} == {x}.max()', False), ('{x} > np.median({x})', False),
+    ('np.abs({x} - {x}.mean()) > {x}.std()', False), ('np.cumsum({x}).reshape({x}.shape) > 6', False), ('np.roll({x}, 1) > {x}', False),
+    ('np.argsort({x}, axis=None).reshape({x}.shape) < 3', False), ('np.arange({x}.size).reshape({x}.shape) % 2 == 0', False),
+    ('np.flip({x}) > 2', False), ('{x} > np.mean({y})', False), ('{x} + {y} > np.max({y})', False), ('({x} > 1) & ({x} < 6)', True), ('{x} * 2 > {y}', True),
+]
+NATURAL_LINKS = [
+    ('{x} - np.mean({x})', False), ('np.cumsum({x}).reshape({x}.shape)', False), ('{x} / np.max({x})', False), ('np.roll({x}, 1)', False),
+    ('{x} - np.min({y})', False), ('{x} * 2 + {y}', True), ('{x} ** 2 - 1', True),
+]
+
+
+def parsed_dataset(shape, values, yvalues):
+    G.load()
+    return G.Data(x=np.array(values, dtype=int).reshape(shape), y=np.array(yvalues, dtype=int).reshape(shape), label='p')
+
+
+def parsed_state(d, expr):
+    from glue.core.parse import ParsedCommand, ParsedSubsetState
+    refs = {'x': d.id['x'], 'y': d.id['y']}
+    return ParsedSubsetState(ParsedCommand(expr, dict((k, v) for k, v in refs.items() if '{%s}' % k in expr)))
+
+
+def parsed_link(d, expr, label):
+    from glue.core.parse import ParsedCommand, ParsedComponentLink
+    refs = {'x': d.id['x'], 'y': d.id['y']}
+    cid = G.ComponentID(label)
+    d.add_component_link(ParsedComponentLink(cid, ParsedCommand(expr, dict((k, v) for k, v in refs.items() if '{%s}' % k in expr))))
+    return cid
+
+
+def view_wire(shape, vd, v):
+    """basic views go to the model as they are (the model computes the positions); for every other kind the flat positions are
+    numpy's own indexing of arange(size)"""
+    if vd == 'none':
+        return (2, [])                  # view is None
+    if is_basic(vd):
+        return view_enc(vd)
+    n = int(np.prod(shape))
+    pos = np.arange(n).reshape(shape)[v]
+    return (1, [Z(np.shape(pos)), Z(np.ravel(pos).tolist())])
+
+
+def parsed_finding_key(case):
+    """known finding 'parsed-link-whole-array-view': ONLY the values of a ParsedComponentLink-derived attribute read through a view (also the implicit
+    view of an IndexedData) when its expression is not element-wise"""
+    if case.get('kind') in ('link', 'indexed_link') and not case.get('elementwise'):
+        return 'parsed-link-whole-array-view'
+    return None
+
+
+def parsed_thunks(case, d, memo):
+    """(viewed request, full-size request) of one case on the dataset d; memo keeps the states / derived attributes already attached to d"""
+    v = view_obj(case['view'])
+    kind = case['kind']
+    expr = case['expr']
+    if kind in ('mask', 'subset', 'stat', 'indexed_mask'):
+        if ('st', expr) not in memo:
+            memo[('st', expr)] = parsed_state(d, expr)
+        st = memo[('st', expr)]
+    else:
+        if ('cid', expr) not in memo:
+            memo[('cid', expr)] = parsed_link(d, expr, 'pl%d' % len(memo))
+        cid = memo[('cid', expr)]
+    if kind == 'subset':
+        if ('sub', expr) not in memo:
+            memo[('sub', expr)] = d.new_subset()
+            memo[('sub', expr)].subset_state = st
+        sub = memo[('sub', expr)]
+        return (lambda: sub.to_mask(v)), (lambda: sub.to_mask())
+    if kind == 'stat':
+        return (lambda: d.compute_statistic('sum', d.id['x'], subset_state=st, view=v)), (lambda: d.get_mask(st))
+    if kind == 'mask':
+        return (lambda: d.get_mask(st, view=v)), (lambda: d.get_mask(st))
+    if kind == 'link':
+        return (lambda: d.get_data(cid, view=v) if v is not None else d[cid]), (lambda: d[cid])
+    idx = tuple(case['indices'])
+    psl = tuple(slice(None) if i is None else i for i in idx)
+    ix = G.IndexedData(d, tuple(case['first_indices'])) if case.get('first_indices') else G.IndexedData(d, idx)
+    ix.indices = idx
+    if kind == 'indexed_mask':
+        return (lambda: ix.get_mask(st, view=v)), (lambda: np.asarray(d.get_mask(st))[psl])
+    return (lambda: ix.get_data(cid, view=v)), (lambda: np.asarray(d[cid])[psl])
+
+
+def parsed_eval(case, shared=None):
+    """(got, expected) of one case of the parsed stream. view-first cases (and replays) run on freshly built objects;
+    full-first cases may share one dataset per shape (shared = (dataset, memo))"""
+    shape = tuple(case['shape'])
+    v = view_obj(case['view'])
+    order = case.get('order', 'full-first')
+    if shared is None or order == 'view-first':
+        d, memo = parsed_dataset(shape, case['values'], case['yvalues']), {}
+    else:
+        d, memo = shared
+    f_view, f_full = parsed_thunks(case, d, memo)
+    if order == 'view-first':
+        got = call(f_view)
+        full = call(f_full)
+    else:
+        full = call(f_full)
+        got = call(f_view)
+    if full[0] == 'err':
+        return got, full, d
+    fa = np.asarray(full[1])
+    if case['kind'] == 'stat':
+        x = np.asarray(d[d.id['x']])
+        xs, ms = (x, fa) if v is None else (x[v], fa[v])
+        return got, ('ok', textbook_sum(xs, ms, None)), d
+    return got, expected_view(fa, v), d
+
+
+def stream_parsed(R):
+    G.load()
+    shapes = R.pick([(5,), (3, 4), (2, 3, 4)], [(5,), (6,), (3, 4), (4, 3), (2, 3, 4), (3, 2, 2)])
+    nrand = R.pick(14, 40)
+    ncases = 0
+    pending = []
+    for shape in shapes:
+        rng = R.subrng('parsed', shape)
+        n = int(np.prod(shape))
+        nd = len(shape)
+        values = [rng.randrange(-3, 9) for _ in range(n)]
+        yvalues = [rng.randrange(0, 6) for _ in range(n)]
+        views = all_views(shape, rng, ALPHABET if nd < 3 else ALPHABET[:4])
+        # expressions: random trees (model + oracle; at least half with a whole-array construct) and the natural ones (oracle only)
+        masks = [(b_render(e), e, b_elementwise(e)) for e in [gen_bexpr(rng, 1, whole=(True if k % 2 == 0 else None)) for k in range(nrand)]]
+        masks += [(s_, None, ew) for s_, ew in NATURAL_MASKS]
+        links = [(a_render(e), e, a_elementwise(e)) for e in [gen_aexpr(rng, 2, need_array=True, whole=(True if k % 2 == 0 else None)) for k in range(nrand // 2)]]
+        links += [(s_, None, ew) for s_, ew in NATURAL_LINKS]
+        base = {'stream': 'parsed', 'shape': list(shape), 'values': values, 'yvalues': yvalues}
+        # IndexedData: every pattern with one removed dimension, index from either end, reassigned once
+        ixs = []
+        if nd >= 2:
+            for ax in range(nd):
+                first = [None] * nd
+                first[ax] = 0
+                idx = [None] * nd
+                idx[ax] = rng.randrange(-shape[ax], shape[ax])
+                ixs.append((first if rng.random() < .5 else None, idx))
+        plan = []
+        for k, (expr, tree, ew) in enumerate(masks):
+            for j, vd in enumerate(views):
+                kind = 'mask' if (j + k) % 4 else 'subset'
+                plan.append(dict(base, kind=kind, expr=expr, tree=tree, elementwise=ew, view=vd, order='view-first' if (j + k) % 5 == 0 else 'full-first'))
+                if isinstance(vd, list) and vd[0] == 'tuple' and len(vd[1]) == nd and not any(isinstance(e, int) for e in vd[1]) and (j + k) % 3 == 0:
+                    plan.append(dict(base, kind='stat', expr=expr, tree=None, elementwise=ew, view=vd, order='full-first'))
+            for first, idx in ixs:
+                rshape = np.zeros(shape)[tuple(slice(None) if i is None else i for i in idx)].shape
+                for vd in ['none'] + all_views(rshape, rng, ALPHABET[:4])[2::5]:
+                    plan.append(dict(base, kind='indexed_mask', expr=expr, tree=None, elementwise=ew, view=vd, indices=idx, first_indices=first, order='full-first'))
+        for k, (expr, tree, ew) in enumerate(links):
+            for j, vd in enumerate(views):
+                plan.append(dict(base, kind='link', expr=expr, tree=tree, elementwise=ew, view=vd, order='view-first' if (j + k) % 5 == 0 else 'full-first'))
+            for first, idx in ixs:
+                plan.append(dict(base, kind='indexed_link', expr=expr, tree=None, elementwise=ew, view='none', indices=idx, first_indices=first, order='full-first'))
+        shared = (parsed_dataset(shape, values, yvalues), {})
+        for case in plan:
+            tree = case.pop('tree')
+            v = view_obj(case['view'])
+            got, exp, d = parsed_eval(case, shared)
+            if exp[0] == 'err':
+                if len(exp) == 3:       # the full-size evaluation itself fails
+                    R.fail('oracle', dict(case, view='none'), {'raises': exp[1], 'message': exp[2], 'when': 'full-size request'}, key=None)
+                continue                # numpy rejects the view: outside the domain
+            ncases += 1
+            ea = np.asarray(exp[1])
+            trivial = case['view'] in ('none', 'ellipsis') or ea.size == 0
+            R.count(('parsed', tuple(shape), case['kind'], case['expr'], repr(case['view']), repr(case.get('indices')), case['order']), nontrivial=not trivial,
+                    stream='parsed', what='parsed:' + case['kind'], view=view_kind(case['view']), ndim=nd, elementwise=case['elementwise'], order=case['order'])
+            key = parsed_finding_key(case)
+            if got[0] == 'err':
+                R.fail('oracle', case, {'raises': got[1], 'message': got[2], 'expected_shape': list(ea.shape)}, key=key)
+            else:
+                diff = same(got[1], ea)
+                if diff:
+                    R.fail('oracle', case, {'difference': diff, 'result': np.asarray(got[1]).tolist(), 'expected': ea.tolist()}, key=key)
+            if tree is not None and case['kind'] in ('mask', 'subset'):
+                pending.append((case, got, enc((6, [Z(shape), Z(values), b_enc(tree), view_wire(shape, case['view'], v)])), 'bool'))
+            elif tree is not None and case['kind'] == 'link' and ea.size > 0:
+                # the code pushes the view inside for every ParsedComponentLink: the model follows it (tag 7); tag 8 is what the property demands
+                pending.append((case, got, enc((7, [Z(shape), Z(values), a_enc(tree), view_wire(shape, case['view'], v)])), 'int'))
+    outs = R.model([p[2] for p in pending])
+    for (case, got, _, typ), o in zip(pending, outs):
+        if is_err(o) or got[0] == 'err':
+            if is_err(o) != (got[0] == 'err'):
+                R.fail('correspondence', case, {'model': 'error' if is_err(o) else 'ok', 'impl': got[0:2]})
+            continue
+        sh = to_zs(kids(o)[0])
+        m = np.array(to_zs(kids(o)[1]), dtype=bool if typ == 'bool' else float).reshape(sh)
+        res = np.asarray(got[1])
+        if tuple(sh) != res.shape or not np.array_equal(m, res):
+            R.fail('correspondence', case, {'model_shape': sh, 'impl_shape': list(res.shape), 'model': m.astype(int).ravel().tolist(), 'impl': res.astype(float).ravel().tolist()})
+    R.sample({'stream': 'parsed', 'shape': [5], 'values': [1, 2, 3, 4, 30], 'yvalues': [0, 1, 2, 3, 4], 'kind': 'mask', 'expr': '{x} > np.mean({x})', 'elementwise': False,
+              'view': ['tuple', [[0, 2, None]]], 'order': 'full-first'})
+    R.stream('parsed', cases=ncases, model_cases=len(pending), exhaustive=False,
+             bound='shapes %s, integer values; %d random expression trees per shape over {x}, constants, arange, size, sum, max, min, cumsum, roll, + - *, comparisons, & | ~ '
+                   '(half of them with a whole-array construct; model + oracle) and %d natural expressions (mean, percentile, median, std, argsort, flip, two attributes; oracle only) '
+                   'as ParsedSubsetState through get_mask / Subset.to_mask / compute_statistic(subset_state=, view=) / IndexedData.get_mask (indices reassigned), and '
+                   '%d + %d expressions as ParsedComponentLink-derived attributes through get_data / IndexedData.get_data; every view of the domain; a fifth of the cases view-first' % (
+                       shapes, nrand, len(NATURAL_MASKS), nrand // 2, len(NATURAL_LINKS)))
+
+
 # ------------------------------------------------------------------ malformed
 def stream_malformed(R):
     G.load()
@@ -840,6 +1491,13 @@ def stream_malformed(R):
             R.fail('correspondence', {'stream': 'malformed', 'what': label}, {'impl': got, 'expected': want})
     outs = R.model(['(9 1)', enc((1, [Z([2, 3]), (0, [sl_enc([None, None, None])]), (0, [(1, [5])])])),
                     enc((1, [Z([3]), (0, [sl_enc([None, None, -1])]), (0, [sl_enc([None, None, None])])]))])
+    # round-4 entry points: a view that numpy rejects (integer out of range) on a parsed leaf / a categorical column; an unknown tag
+    outs2 = R.model([enc((6, [Z([3]), Z([1, 2, 3]), (0, [(0, []), (4, [(0, [])])]), (0, [(1, [5])])])),
+                     enc((5, [Z([3]), Z([97, 98, 97]), (0, [(1, [-4])]), 0])), enc((7, [Z([2]), Z([1, 2]), (0, []), (3, [])]))])
+    for o, want in zip(outs2, (2, 2, 2)):
+        n += 1
+        if not is_err(o) or err_code(o) != want:
+            R.fail('correspondence', {'stream': 'malformed', 'what': 'model error value (round-4 tags)'}, {'model': o, 'expected_error': want})
     for o, want in zip(outs, (-2, 2, 1)):
         n += 1
         if not is_err(o) or err_code(o) != want:
@@ -855,6 +1513,8 @@ def run(R):
     stream_slice_state(R)
     stream_cross(R)
     stream_indexed(R)
+    stream_order(R)
+    stream_parsed(R)
     stream_malformed(R)
 
 
@@ -967,6 +1627,23 @@ def replay(R, case):
         out['expected'] = np.asarray(exp[1]).tolist() if exp[0] == 'ok' else exp
         out['implementation'] = np.asarray(got[1]).tolist() if got[0] == 'ok' else list(got)
         out['violates'] = exp[0] == 'ok' and (got[0] == 'err' or same(got[1], exp[1]) is not None)
+    elif st == 'parsed':
+        got, exp, d = parsed_eval(case)
+        out['expected'] = np.asarray(exp[1]).tolist() if exp[0] == 'ok' else list(exp)
+        out['implementation'] = np.asarray(got[1]).tolist() if got[0] == 'ok' else list(got)
+        out['violates'] = (exp[0] == 'ok' and (got[0] == 'err' or same(got[1], exp[1]) is not None)) or (exp[0] == 'err' and len(exp) == 3)
+    elif st == 'order':
+        shape = tuple(case['shape'])
+        ref = build_twin(case['builder'], shape, case['coords'], case['seed'])
+        rf = order_reference(ref, case['kind'], case['name'], case['ep'])
+        if rf[0] == 'err':
+            out['note'] = 'the full-size request fails on its own: %r' % (rf[1:],)
+            out['violates'] = True
+            return out
+        bad, got, full = run_order_case(case['builder'], shape, case['coords'], case['seed'], case['kind'], case['name'], case['ep'], case['view'], rf[1], case['order'])
+        out['implementation'] = np.asarray(got[1]).tolist() if got[0] == 'ok' else list(got)
+        out['detail'] = bad
+        out['violates'] = bool(bad)
     else:
         out['note'] = 'replay by re-running the stream: ./check C04 --tier quick'
         out['violates'] = False
